@@ -10,9 +10,9 @@
    hashlib.new(name, data).digest() is the Section variable [hashnew] with the
    assumed contract [hashnew_octets] (a digest is an octet string). *)
 From Coq Require Import Permutation.
-From Model Require Import Base PyVal B64 IntCodec TableTypes C13Json C13Thumb.
+From Model Require Import Base PyVal B64 IntCodec TableTypes C13Json C13Thumb C13Sha256.
 From Gen Require Import Tables.
-From Proofs Require Import C13Proofs.
+From Proofs Require Import C13Proofs C13Sort C13Ascii.
 Open Scope N_scope.
 
 Section C13.
@@ -66,6 +66,24 @@ Section C13.
     do h <- hashnew dg (rfc7638_canonical (restrict d names)); Ok (b64e h).
   Proof. exact (thumbprint_rfc hashnew). Qed.
 
+  (* the registry's declaration order is irrelevant: any reordering of the
+     field list gives the same thumbprint (sorted() is canonical) *)
+  Theorem c13_field_order_irrelevant : forall d fields fields' dg,
+    Permutation fields fields' ->
+    thumbprint hashnew d fields dg = thumbprint hashnew d fields' dg.
+  Proof. exact (thumbprint_fields_order hashnew). Qed.
+
+  (* for every dictionary whatsoever the hashed octets are the JSON text
+     itself: ensure_ascii output is pure ASCII, so the UTF-8 step is the
+     identity and cannot fail *)
+  Theorem c13_hashes_json_text : forall d fields dg,
+    thumbprint hashnew d fields dg =
+    do data <- build_data d (sort_fields fields) [];
+    do js <- jdumps (PDict data);
+    do h <- hashnew dg js;
+    Ok (b64e h).
+  Proof. exact (thumbprint_hashes_json_text hashnew). Qed.
+
   (* unpadded base64url: only A-Z a-z 0-9 - _ *)
   Theorem c13_unpadded_base64url : forall d fields dg t,
     thumbprint hashnew d fields dg = Ok t -> forallb in_alphabet t = true.
@@ -118,6 +136,18 @@ Section C13.
                key_thumbprint hashnew (ko_cls k') (ko_dict k') =
                key_thumbprint hashnew (ko_cls k) (ko_dict k).
   Proof. exact (native_priv_pub hashnew). Qed.
+
+  (* representation independence: any two native keys with the same public
+     key (generated private key; the key the crypto library loads from its
+     private or public PEM / DER; ...), each with arbitrary optional
+     parameters, have the same thumbprint — for all four key types *)
+  Theorem c13_repr_independent : forall nk nk' params params' k k',
+    native_public nk = native_public nk' ->
+    params_optional (native_cls nk) params -> params_optional (native_cls nk') params' ->
+    key_of_native nk params = Ok k -> key_of_native nk' params' = Ok k' ->
+    ko_cls k = ko_cls k' /\
+    key_thumbprint hashnew (ko_cls k) (ko_dict k) = key_thumbprint hashnew (ko_cls k') (ko_dict k').
+  Proof. exact (repr_independent hashnew). Qed.
 
   (* EC members x, y, d are the full-length RFC 7518 coordinates, so the
      member text (hence the thumbprint) of a key loaded from PEM/DER equals
@@ -219,6 +249,30 @@ Proof.
   - vm_compute. reflexivity.
 Qed.
 
+(* with hashlib instantiated by the SHA-256 of model/C13Sha256.v the model
+   reproduces the thumbprints printed in RFC 7638 3.1 and RFC 8037 A.3 *)
+Definition sha_hashnew (n : str) (x : bytes) : res bytes :=
+  if str_eqb n (asc "sha256") then Ok (sha256 x) else Err EValue.
+
+Example c13_rfc7638_vector :
+  key_thumbprint sha_hashnew RSACls rfc7638_example = Ok (asc "NzbLsXh8uDCcd-6MNwXF4W_7noWXFZAfHkxZsRGC9Xs") /\
+  b64e (sha256 (rfc7638_canonical (restrict rfc7638_example [asc "e"; asc "kty"; asc "n"]))) =
+  asc "NzbLsXh8uDCcd-6MNwXF4W_7noWXFZAfHkxZsRGC9Xs".
+Proof. split; vm_compute; reflexivity. Qed.
+
+Example c13_rfc8037_vector :
+  let K := [(asc "crv", PStr (asc "Ed25519")); (asc "kty", PStr (asc "OKP"));
+            (asc "x", PStr (asc "11qYAYKxCrfVS_7TyWQHOg7hcvPapiMlrwIaaPcHURo"))] in
+  rfc7638_canonical (restrict K [asc "crv"; asc "kty"; asc "x"]) =
+  asc "{""crv"":""Ed25519"",""kty"":""OKP"",""x"":""11qYAYKxCrfVS_7TyWQHOg7hcvPapiMlrwIaaPcHURo""}" /\
+  key_thumbprint sha_hashnew OKPCls K = Ok (asc "kPrK_qmxVWaYVA9wwBF6Iuo3vVzz7TxHCTwXBygrS4k").
+Proof. split; vm_compute; reflexivity. Qed.
+
+Example c13_field_order_instance :
+  Permutation (key_fields ECCls) (rev (key_fields ECCls)) /\
+  key_fields ECCls <> rev (key_fields ECCls).
+Proof. split; [apply Permutation_rev | vm_compute; discriminate]. Qed.
+
 (* a toy digest (identity on short inputs) to run the model end to end: kid
    assignment, idempotence, private/public view of an EC key with a short x *)
 Definition toy_hash (n : str) (x : bytes) : res bytes := Ok (firstn 6 x).
@@ -263,6 +317,8 @@ Print Assumptions c13_required_members_sorted.
 Print Assumptions c13_plain_verbatim.
 Print Assumptions c13_is_rfc7638.
 Print Assumptions c13_digest_choice.
+Print Assumptions c13_field_order_irrelevant.
+Print Assumptions c13_hashes_json_text.
 Print Assumptions c13_unpadded_base64url.
 Print Assumptions c13_depends_on_required_only.
 Print Assumptions c13_optional_irrelevant.
@@ -270,6 +326,7 @@ Print Assumptions c13_optional_parameters_irrelevant.
 Print Assumptions c13_order_irrelevant.
 Print Assumptions c13_priv_pub_same.
 Print Assumptions c13_priv_pub_same_native.
+Print Assumptions c13_repr_independent.
 Print Assumptions c13_ec_members_full_length.
 Print Assumptions c13_kid.
 Print Assumptions c13_kid_never_overwritten.
